@@ -20,6 +20,7 @@ inductive RecCase (s : St) (xo x : Pt) (y : Rat) (sd : Option Rat) (rd : Bool) (
       (h2 : s' = { s with rows := s.rows ++ [{ xo := xo, x := x, y := y, yo := y, tau := sd.map (fun v => 1 / (v * v)), n := 1 }],
                           cap := cap', xMaxIdx := min (s.xMaxIdx + 1) cap' })
       (h3 : v = y) (h4 : idx = some s.rows.length) (h5 : s.cap ≤ cap')
+      (h6 : cap' = if s.rows.length > s.cap - 1 || s.cap = 0 then s.cap + growBy s.rows.length else s.cap)
 
 theorem record_cases (s : St) (xo x : Pt) (y : Rat) (sd : Option Rat) (rd : Bool) (s' : St) (v : Rat)
     (idx : Option Nat) (h : record s xo x y sd rd = .ok (s', v, idx)) :
@@ -40,13 +41,13 @@ theorem record_cases (s : St) (xo x : Pt) (y : Rat) (sd : Option Rat) (rd : Bool
     cases sd with
     | none =>
       simp only [Except.ok.injEq, Prod.mk.injEq] at h
-      refine .fresh _ rfl (Or.inl rfl) h.1.symm h.2.1.symm h.2.2.symm ?_
+      refine .fresh _ rfl (Or.inl rfl) h.1.symm h.2.1.symm h.2.2.symm ?_ rfl
       split <;> omega
     | some sdv =>
       cases hf : firstMatch x s.rows with
       | none =>
         simp only [hf, Option.map_none, Except.ok.injEq, Prod.mk.injEq] at h
-        refine .fresh _ rfl (Or.inr hf) h.1.symm h.2.1.symm h.2.2.symm ?_
+        refine .fresh _ rfl (Or.inr hf) h.1.symm h.2.1.symm h.2.2.symm ?_ rfl
         split <;> omega
       | some i =>
         simp only [hf, Option.map_some] at h
